@@ -197,7 +197,8 @@ def _e4(vc, branches):
 
 
 @harness('E4', targets=['kopf._cogs.configs.conventions.StorageKeyFormingConvention.make_v2_key'],
-         props=['C16', 'C02', 'C04'],
+         props=['C16', 'C02', 'C04', 'C05'],
+         prop_clauses={'C05': ['prefixed']},
          clauses=['prefixed', 'name_length', 'short_verbatim', 'long_hashed', 'callees', 'name_charset', 'name_valid'],
          canaries=['canary.never_hashed', 'canary.always_hashed', 'canary.lemma_keeps_all'],
          trusted=['make_suffix: "-" + 5 chars of [A-Za-z0-9.-] + 1 alphanumeric (7 chars), a function of its argument only: '
@@ -225,7 +226,8 @@ def E4(vc):
 
 
 @harness('E4v1', targets=['kopf._cogs.configs.conventions.StorageKeyFormingConvention.make_v1_key'],
-         props=['C16', 'C02', 'C04'],
+         props=['C16', 'C02', 'C04', 'C05'],
+         prop_clauses={'C05': ['prefixed']},
          clauses=['prefixed', 'name_length', 'short_verbatim', 'long_hashed', 'callees'],
          canaries=['canary.never_hashed', 'canary.always_hashed'],
          trusted=['make_suffix / make_safe_key: lengths only (7 chars / same length), see E4 and E4b'],
@@ -301,7 +303,8 @@ def _random_id(rng, max_len=300):
                          'kopf._cogs.configs.conventions.StorageKeyFormingConvention.make_safe_key',
                          'kopf._cogs.configs.conventions.StorageKeyFormingConvention.make_v1_key',
                          'kopf._cogs.configs.conventions.StorageKeyFormingConvention.make_v2_key'],
-         props=['C16', 'C02', 'C03', 'C04', 'C08', 'C14'],
+         props=['C16', 'C02', 'C03', 'C04', 'C08', 'C14', 'C05'],
+         prop_clauses={'C05': ['make_keys', 'deterministic', 'pure_ast', 'same_across_restarts']},
          clauses=['suffix_shape', 'safe_key', 'charset', 'name_length', 'valid_name', 'make_keys', 'deterministic', 'pure_ast',
                   'same_across_restarts', 'distinct_long_shared_prefix', 'distinct_short'],
          universe='ids: all strings of length 1..3 over {a,Z,0,_,.,/,<,>,-} (819) + seeded random ids of length 1..300 over '
@@ -541,7 +544,8 @@ def _strip_own(body, keys, status, hid, markers):
                         'kopf._cogs.configs.progress.SmartProgressStorage', 'kopf._cogs.configs.progress.MultiProgressStorage',
                         'kopf._cogs.configs.diffbase.AnnotationsDiffBaseStorage', 'kopf._cogs.configs.diffbase.StatusDiffBaseStorage',
                         'kopf._cogs.configs.diffbase.MultiDiffBaseStorage', 'kopf._cogs.configs.conventions.CollisionEvadingConvention.mark_key'],
-         props=['C16', 'C02', 'C03', 'C14'],
+         props=['C16', 'C02', 'C03', 'C14', 'C05', 'C06', 'C08', 'C15', 'C04'],
+         prop_clauses={'C05': ['diffbase_round_trip', 'replicaset_marking'], 'C06': ['isolation_other_ids', 'touch'], 'C08': ['round_trip', 'written_names_valid', 'purge_complete', 'store_then_purge_in_one_patch', 'diffbase_round_trip'], 'C15': ['diffbase_round_trip'], 'C04': ['store_touches_only_own', 'purge_touches_only_own', 'isolation_other_operator', 'touch', 'diffbase_round_trip', 'replicaset_marking']},
          clauses=['round_trip', 'written_names_valid', 'store_touches_only_own', 'purge_complete', 'purge_touches_only_own', 'purge_of_nothing_is_noop',
                   'store_then_purge_in_one_patch', 'isolation_other_ids', 'isolation_other_operator', 'either_version_read',
                   'touch', 'diffbase_round_trip', 'replicaset_marking'],
